@@ -156,7 +156,7 @@ def convert(m, n, sf, df, se, de, mode, wsel, back, four=False, er=False, gfo=Fa
     data = _encode(src_f, [(sid if src_f in ("export", "tigerxml") else None, s) for sid, s in sents], se, er)
     sids_src = [7, 0] if src_f in ("export", "tigerxml") else [1, 2]
     if mode == 1:
-        stubs.MemFS.dirs.add("corp")
+        stubs.mkdir("corp")
         stubs.MemFS.files["corp/a"] = data
         src, dest, out = "corp", "unused", "corp/a.dest"
     elif mode == 2:
